@@ -42,7 +42,7 @@ static inline void pl_clear(struct pktlist *q) { q->len = 0; q->bytes = 0; }
 struct seqmap_int { bool has_G; int val_G; int64_t sum; size_t size; uint64_t bound; };
 struct smi_it { bool end; uint64_t key; int val; };
 struct smi_it nondet_smi_it(void);
-#define SMI_OK(m) ((m).size < ((size_t)1 << 62) && ((m).has_G ? G_k < (m).bound : 1) && (m).bound < ((uint64_t)1 << 62) && BOOL_OK((m).has_G) && (m).sum >= 0 && (m).val_G >= 0 && ((m).has_G ? (m).sum >= (m).val_G : 1) && ((m).size == 0 ? ((m).sum == 0 && !(m).has_G) : 1))
+#define SMI_OK(m) ((m).size < ((size_t)1 << 62) && ((m).has_G ? G_k < (m).bound : 1) && BOOL_OK((m).has_G) && (m).sum >= 0 && (m).val_G >= 0 && ((m).has_G ? (m).sum >= (m).val_G : 1) && ((m).size == 0 ? ((m).sum == 0 && !(m).has_G) : 1))
 int nondet_int(void);
 /* m[key] = v */
 static inline void smi_set(struct seqmap_int *m, uint64_t key, int v)
